@@ -8,6 +8,7 @@ from ..core import FUNC, call_attr, calls_in, const, dotted, is_const, kwarg, no
 from .c09 import waiter_rule, _stored_in_cancelled_table
 
 EXPLANATION = [
+    'C16.smp-sessions: Session.on_disconnection reports the end of the session to the manager on every path and the manager removes it from its table; the session registers for its connection\'s disconnection event.',
     'C16.parity: the host tears a link down in one place (Host.on_disconnection: event to listeners, host tables, three data queues); '
     'both ways a link can end reach it for every live handle - the Disconnection Complete event and the loss of the transport - and '
     'the listeners of the event cover the device table, the GATT server state and the L2CAP tables; the per-connection event fans out '
@@ -231,7 +232,37 @@ def waiters_rule(ctx):
     R.floor(rule, 45, 'awaits on futures/events')
 
 
+
+def smp_sessions(ctx):
+    """A pairing session never outlives its link."""
+    R, p = ctx.r, ctx.p
+    rule = 'C16.smp-sessions'
+    fn = p.find('bumble.smp.Session.on_disconnection')
+    end = p.find('bumble.smp.Manager.on_session_end')
+    if fn is None or end is None:
+        R.bad(rule, 'bumble.smp.Session.on_disconnection / Manager.on_session_end', 'anchor missing')
+        return
+
+    class D(paths.Domain):
+        def event(self, node, v):
+            if isinstance(node, ast.Call) and dotted(node.func) == 'self.manager.on_session_end':
+                return (True,)
+            return (v,)
+    res = paths.run(fn, D(), False)
+    bad = [' '.join(w) for v, w in paths.normal_exits(res).items() if not v]
+    R.check(not bad, rule, 'bumble.smp.Session.on_disconnection | session ends with the link', 'every exit reports the session\'s end to the manager, whatever the pairing state',
+            'a session can survive the disconnection of its link (e.g. when pairing had completed): it stays in Manager.sessions and, once the controller reuses the handle, receives the next link\'s SMP PDUs', p.loc(fn), bad[:2])
+    dels = [n for n in walk_local(end) if isinstance(n, ast.Delete) and any(isinstance(t, ast.Subscript) and dotted(t.value) == 'self.sessions' for t in n.targets)]
+    pops = [c for c in calls_in(end) if call_attr(c) == 'pop' and dotted(c.func.value) == 'self.sessions']
+    R.check(bool(dels) or bool(pops), rule, 'bumble.smp.Manager.on_session_end', 'removes the session from Manager.sessions', 'the manager does not forget an ended session', p.loc(end))
+    # the session listens for its link's disconnection
+    init = p.find('bumble.smp.Session.__init__')
+    ok = init is not None and any(call_attr(c) in ('on', 'once') and len(c.args) >= 2 and 'EVENT_DISCONNECTION' in norm(c.args[0]) and norm(c.args[1]) == 'self.on_disconnection' for c in calls_in(init))
+    R.check(ok, rule, 'bumble.smp.Session.__init__ | listens for disconnection', 'registers on_disconnection on its connection', 'the session is not told when its link goes away', p.loc(init) if init else '')
+
+
 RULES = [
+    ('C16.smp-sessions', smp_sessions),
     ('C16.parity', parity),
     ('C16.variants', variants),
     ('C16.controller-tables', controller_tables),
@@ -253,4 +284,5 @@ VARIANTS = [
     ('gatt client no longer cancels the pending request', 'bumble/gatt_client.py', "        if self.pending_response and not self.pending_response.done():\n            self.pending_response.cancel()\n", "        pass\n", 'fire', 'C16.parity'),
     ('controller keeps the LE connection', 'bumble/controller.py', "        del self.le_connections[connection.peer_address]\n\n    def create_le_connection", "\n    def create_le_connection", 'fire', 'C16.controller-tables'),
     ('benign: log text', 'bumble/host.py', "            logger.warning('!!! DISCONNECTION COMPLETE: unknown handle')\n", "            logger.warning('!!! disconnection complete for an unknown handle')\n", 'silent', ''),
+    ('completed session survives its link', 'bumble/smp.py', "        self.manager.on_session_end(self)\n\n    def on_peer_key_distribution_complete", "        if not self.completed:\n            self.manager.on_session_end(self)\n\n    def on_peer_key_distribution_complete", 'fire', 'C16.smp-sessions'),
 ]
